@@ -183,9 +183,12 @@ func (s *Storer) DelRunId(id string) error {
 func (s *Storer) resetDataSet() {
 	s.logger.Debugf("Storer reset dataset : %s", s.dir)
 
-	s.dataSetMux.Lock()
-	defer s.dataSetMux.Unlock()
-	ra := s.dataSet
+	// Closing the index closes its readers, and a reader's close needs the reader's
+	// own lock — which a reader polling at the tail holds while it asks the index
+	// for the last segment (getDataSet -> dataSetMux.RLock). Holding dataSetMux
+	// across the close dead-locked the reset (DelRunId, GetRdbWriter) as soon as two
+	// started readers were tailing. The callers hold s.mux, nothing else swaps the index.
+	ra := s.getDataSet()
 	if ra != nil {
 		ra.Close()
 	}
@@ -205,7 +208,9 @@ func (s *Storer) resetDataSet() {
 		return nil
 	})
 
+	s.dataSetMux.Lock()
 	s.dataSet = newDataSet(nil, nil)
+	s.dataSetMux.Unlock()
 }
 
 func (s *Storer) Close() error {
